@@ -194,8 +194,8 @@ var toStringSpecChangeCode = map[SpecChangeCode]string{
 	DeletedTag:                "DeletedTag",
 	AddedOptionalParam:        "AddedOptionalParam",
 	AddedRequiredParam:        "AddedRequiredParam",
-	DeletedOptionalParam:      "DeletedRequiredParam",
-	DeletedRequiredParam:      "Deleted required param",
+	DeletedOptionalParam:      "DeletedOptionalParam",
+	DeletedRequiredParam:      "DeletedRequiredParam",
 	DeletedResponse:           "DeletedResponse",
 	AddedResponse:             "AddedResponse",
 	WidenedType:               "WidenedType",
